@@ -107,7 +107,7 @@ def check_C05(report, tier, seed):
 def check_C06(report, tier, seed): engine_check("C06", report, tier, seed)
 def check_C07(report, tier, seed):
     import suites_engine as S
-    engine_check("C07", report, tier, seed)
+    engine_check("C07", report, tier, seed, profile=lambda i: "connects" if i % 3 == 1 else "default")
     S.exhaustive(report, "C07", 3 if tier == "quick" else 4)
 def check_C09(report, tier, seed): engine_check("C09", report, tier, seed)
 def check_C10(report, tier, seed): engine_check("C10", report, tier, seed)
@@ -155,6 +155,7 @@ def check_C08(report, tier, seed):
     S.correspondence(report, walks, "C08")
     S.monitor_strict(report, walks, "C08")
     S.due_timeout_family(report, "C08")
+    S.delayed_ping_spin_family(report, "C08")
 
 
 def check_C19(report, tier, seed):
